@@ -24,7 +24,10 @@ The model observation is `call (refEnv lossy64)` — the wrapper with fixes/F09 
 over the schemas the registration model (`World.step`: `setSchema` through the case's shared
 `SchemaCache`s, after the whole history of the case) says the tool ENFORCES. The monitor judges the
 implementation's observation against `call (refEnv id)` over the tool's OWN schemas (declared, else
-inferred from its Go type): validity by the reference validator on exact numbers. Disagreements between `jsonschema-go` (fields `lib`/`olib`,
+inferred from its Go type): validity by the reference validator on exact numbers. The handler's observed
+input is also read back (`parseCanonTok`) and judged member-wise: a struct field that does not hold the
+decoding of the validated member of EXACTLY its JSON name but does hold that of a differently spelled
+member gives the clause `handler_sees_exactly_validated_members` (with the member's path). Disagreements between `jsonschema-go` (fields `lib`/`olib`,
 computed by the harness on exactly decoded values) and the reference validator are reported with the
 clause prefix `LIBDISC` and excluded from the verdict.
 -/
@@ -428,6 +431,90 @@ def obsOf (o : Outcome) : Obs :=
 def sameObs (a b : Obs) : Bool :=
   a.inv == b.inv && a.seen == b.seen && a.res == b.res && a.sc == b.sc && a.content == b.content
 
+/-! ### canonical token → JVal (the handler's observed input, for the member-wise clause) -/
+
+def takeHex : List Char → List Char × List Char
+  | c :: t => if (hexVal c).isSome then let (d, r) := takeHex t; (c :: d, r) else ([], c :: t)
+  | [] => ([], [])
+
+partial def parseCanon : List Char → Option (JVal × List Char)
+  | 'z' :: t => some (.null, t)
+  | 't' :: t => some (.bool true, t)
+  | 'f' :: t => some (.bool false, t)
+  | 'n' :: t =>
+    let (neg, t) := match t with | '-' :: u => (true, u) | _ => (false, t)
+    let (ds, t) := takeDigits t
+    if ds.isEmpty then none else
+    let m : Int := (digitsToNat ds : Int) * (if neg then -1 else 1)
+    match t with
+    | 'e' :: '-' :: u =>
+      let (es, r) := takeDigits u
+      if es.isEmpty then none else some (.num ⟨m, digitsToNat es⟩, r)
+    | _ => some (.num ⟨m, 0⟩, t)
+  | 's' :: t =>
+    let (hs, r) := takeHex t
+    (hexToString (String.ofList hs)).map fun s => (.str s, r)
+  | '[' :: ']' :: t => some (.arr [], t)
+  | '[' :: t => elems t []
+  | '{' :: '}' :: t => some (.obj [], t)
+  | '{' :: t => members t []
+  | _ => none
+where
+  elems (cs : List Char) (acc : List JVal) : Option (JVal × List Char) :=
+    match parseCanon cs with
+    | none => none
+    | some (v, r) =>
+      match r with
+      | ',' :: r' => elems r' (v :: acc)
+      | ']' :: r' => some (.arr (v :: acc).reverse, r')
+      | _ => none
+  members (cs : List Char) (acc : Fields) : Option (JVal × List Char) :=
+    match cs with
+    | 's' :: t =>
+      let (hs, r) := takeHex t
+      match hexToString (String.ofList hs), r with
+      | some k, ':' :: r' =>
+        match parseCanon r' with
+        | none => none
+        | some (v, r'') =>
+          match r'' with
+          | ',' :: r3 => members r3 ((k, v) :: acc)
+          | '}' :: r3 => some (.obj ((k, v) :: acc).reverse, r3)
+          | _ => none
+      | _, _ => none
+    | _ => none
+
+def parseCanonTok (tok : String) : Option JVal :=
+  match parseCanon tok.toList with
+  | some (v, []) => some v
+  | _ => none
+
+/-- A struct member (path) of the handler's observed input `seen` that does NOT hold the decoding of the
+member of exactly its name in the validated object `d` (`handler_sees_exactly_validated_members`), but
+does hold the decoding of a differently spelled member of `d`. -/
+partial def blameMember (t : GoTy) (d seen : JVal) : Option String :=
+  match t, d, seen with
+  | .ptr t', d, s => blameMember t' d s
+  | .struct fs, .obj kvs, .obj out =>
+    fs.findSome? fun (n, oe, ty) =>
+      match fieldDecode ty kvs n with
+      | none => none
+      | some y =>
+        let got := lookupJ n out
+        if showOpt (fieldShown oe ty y) == showOpt got then none else
+        let inner := match lookupJ n kvs, got with
+          | some dv, some gv => blameMember ty dv gv
+          | _, _ => none
+        match inner with
+        | some p => some (n ++ "." ++ p)
+        | none =>
+          if kvs.any (fun kv => kv.1 != n &&
+                (match project ty kv.2 with
+                 | some z => showOpt (fieldShown oe ty z) == showOpt got
+                 | none => false))
+          then some n else none
+  | _, _, _ => none
+
 /-- The C16 monitor: the implementation's observation against the wrapper run with exact numbers. -/
 def monitor (d : ToolD) (ci : CallIn) (o : Obs) : Option String :=
   let t := d.tool
@@ -451,7 +538,12 @@ def monitor (d : ToolD) (ci : CallIn) (o : Obs) : Option String :=
     if io.inv == "1" then some "C16: invoked_iff_valid_after_defaults: arguments valid after defaults (and decodable) but the handler did not run"
     else some "C16: invoked_iff_valid_after_defaults: handler ran on arguments that are invalid after defaults"
   else if o.seen != io.seen then
-    some "C16: handler_sees_defaulted_args: the handler observed something other than the defaulted arguments"
+    match (defaulted idEnv t.inSchema ci.args), parseCanonTok o.seen with
+    | some dv, some sv =>
+      match blameMember d.ity dv sv with
+      | some p => some s!"C16: handler_sees_exactly_validated_members: the handler observed for a member of its input a value that differs from the validated (defaulted) argument of that exact name: it holds the value of a differently spelled member, which the schema treated as an additional property and the typed decode must drop (member {p})"
+      | none => some "C16: handler_sees_defaulted_args: the handler observed something other than the defaulted arguments"
+    | _, _ => some "C16: handler_sees_defaulted_args: the handler observed something other than the defaulted arguments"
   else if io.inv == "0" && (o.res != "toolerr" || o.content == "-" || o.sc != "-") then
     some "C16: invalid_gives_tool_error_without_invocation: invalid arguments did not produce an isError result with content"
   else if (match (ci.h .null).out with | .nilPtr => true | _ => false) && (o.res != io.res || o.sc != io.sc) then
